@@ -28,6 +28,9 @@ pub trait TerminalMappings<T> {
 /// When storing MAX_K terminals in 128 bits, the maximum number of bits used per terminal is 12.
 const MAX_BITS: u8 = (std::mem::size_of::<u128>() * 8) as u8 / MAX_K as u8;
 
+/// The largest terminal index that can be stored in [Terminals] (one value is reserved for EPS).
+pub const MAX_TERMINAL_INDEX: usize = (1 << MAX_BITS) - 2;
+
 /// A collection of terminals
 ///
 /// The terminals are stored in a 128 bit integer where each terminal is stored in a fixed number of
